@@ -128,7 +128,7 @@ SEEDTABLE
 
 Ninety-four faults were missed on the first run by the check of their own property (bold above; 13 of the 26 of round 5, 15 of the 40 of round 6, 12 of the 23 of round 7, 12 of the 18 of round 8, 9 of the 18 of round 9 — the later rounds were aimed at the properties that had just missed, and the sub-agents were told every code site used before): in eighty-eight cases the generator did not reach the specific
 trigger (in C17-f and C20-g: the harness never used the same input object twice; in C10-g: it never looked at an operand again after the operation), in one (C18-h) the sampled double preemptions missed the two precise points and the harness's cooperative lock ignored `blocking=False`, in one (C09-i) the harness itself ran the library under `np.errstate(all="ignore")`, in two (C12-o: the read-back cleared the header cache first; C10-p: an overflow tolerance that worked in both directions) the harness was too forgiving, in one (C01-l) the fault was reached but an unguarded call let the exception end the run as an infrastructure error (exceptions escaping from the library are violations now, in every check), in one (C05-c) the faulty reader crashed the node process and the check called that an infrastructure error, and in one (C18-c) the check stopped observing when the
-concurrent reads had returned, so a cache left inconsistent was never read again. The checks were strengthened (last column) and all 257 are now detected by the check of their own property (`tools/reseed_parallel.py` on all 198 of rounds 1–6 with `VERIF_SEED` 0 and 7, on all 221 after round 7 on all 239 after round 8 (seeds 0 and 4) and on all 257 after round 9 (FINAL_REGRESSION)); full regressions at other seeds showed two faults detected only by
+concurrent reads had returned, so a cache left inconsistent was never read again. The checks were strengthened (last column) and all 257 are now detected by the check of their own property (`tools/reseed_parallel.py` on all 198 of rounds 1–6 with `VERIF_SEED` 0 and 7, on all 221 after round 7 on all 239 after round 8 (seeds 0 and 4) and on all 257 after round 9 (seed 0, and seed 2 after the last corrections of the thorough run)); full regressions at other seeds showed two faults detected only by
 luck of the draw — C14-c at seed 3 (C14 now starts with a systematic sweep of frame count × index of the first / last observation) and C03-c at seed 5 (C03 now sweeps every frame boundary in
 milliseconds, one below and one above, at 29.97, 12.5, 25 and 1.5 fps). Three more (C09-f, C19-e, C08-e) stopped being detected at seed 0 when round 5 extended a shared generator (the random streams shifted); each got planned cases that run on every seed. Round 5 also exposed one more genuine defect of the unchanged tree (F17).
 What the misses had in common (none was an oracle that accepted a wrong answer; every one was an input the harness never produced): (1) **values and shapes** the
